@@ -30,11 +30,11 @@ otherwise.
 A tokenizer `toks` over the file text with a three-state segmenter (code / character literal / comment, reset
 at `'\n'`): in code, `.xx.` (any case) with `xx ∈ {eq,ne,lt,le,gt,ge}` is an operator token, everything else is
 a one-character token tagged with its state.  `specFix` replaces operator tokens by the F90 symbol,
-`specViol` lists them, `sem` reads relational operators in either spelling (for `fix_sem`).
+`specViol` lists them, `symAt` reads an F90 relational symbol (for `fix_sem`).
 
 ## U — `DynamicUboundCheckRule` at the abstraction level "inline calls in IF conditions"
 
-`uboundReported` / `uboundRemoved` / `uboundShape` mirror `check_subroutine` / `fix_subroutine`: the calls are
+`uboundReported` / `uboundRemoved` mirror `check_subroutine` / `fix_subroutine`: the calls are
 *not* filtered by name (`get_ubound_checks` takes every inline call in a condition).
 
 Core Lean only.
@@ -77,14 +77,13 @@ def sortedOps : List Op := [.ne, .lt, .le, .eq, .gt, .ge]
 
 /-- the operator named by two letters (any case) -/
 def opOf (a b : Char) : Option Op :=
-  match a.toLower, b.toLower with
-  | 'e', 'q' => some .eq
-  | 'n', 'e' => some .ne
-  | 'l', 't' => some .lt
-  | 'l', 'e' => some .le
-  | 'g', 't' => some .gt
-  | 'g', 'e' => some .ge
-  | _, _ => none
+  if (a == 'e' || a == 'E') && (b == 'q' || b == 'Q') then some .eq
+  else if (a == 'n' || a == 'N') && (b == 'e' || b == 'E') then some .ne
+  else if (a == 'l' || a == 'L') && (b == 't' || b == 'T') then some .lt
+  else if (a == 'l' || a == 'L') && (b == 'e' || b == 'E') then some .le
+  else if (a == 'g' || a == 'G') && (b == 't' || b == 'T') then some .gt
+  else if (a == 'g' || a == 'G') && (b == 'e' || b == 'E') then some .ge
+  else none
 
 /-! ## R.1 string helpers (Python `str` methods) -/
 
@@ -360,13 +359,8 @@ def protText (ts : List Tok) : Line :=
 
 /-! ### meaning of the relational tokens (for `fix_sem`) -/
 
-inductive STok where
-  | rel (k : Op)                 -- a relational operator, in either spelling
-  | other (st : St) (c : Char)
-deriving DecidableEq, Repr
-
 /-- F90 relational symbol at the head of code text: operator and number of characters.
-`=>` (pointer assignment / rename) is not relational: reported as `none` with the `=` consumed alone. -/
+(`=>` is not matched: its first character is `=` followed by `>`.) -/
 def symAt : Line → Option (Op × Nat)
   | '=' :: '=' :: _ => some (.eq, 2)
   | '/' :: '=' :: _ => some (.ne, 2)
@@ -375,24 +369,6 @@ def symAt : Line → Option (Op × Nat)
   | '<' :: _ => some (.lt, 1)
   | '>' :: _ => some (.gt, 1)
   | _ => none
-
-/-- reading of the text as relational operators and other characters; `skip` = characters of a symbol
-still to drop; `prev` = the previous character was the `=` of a `=>` -/
-def sem : St → Nat → Line → List STok
-  | _, _, [] => []
-  | st, n + 1, _ :: cs => sem st n cs
-  | st, 0, c :: cs =>
-    match st with
-    | .code =>
-      (match opAt (c :: cs) with
-       | some (k, _, _, _) => .rel k :: sem .code 3 cs
-       | none =>
-         if c = '=' ∧ cs.head? = some '>' then .other st c :: .other st '>' :: sem .code 1 cs
-         else
-           match symAt (c :: cs) with
-           | some (k, n) => .rel k :: sem .code (n - 1) cs
-           | none => .other st c :: sem (step st c) 0 cs)
-    | _ => .other st c :: sem (step st c) 0 cs
 
 /-! ## U — `DynamicUboundCheckRule` -/
 
@@ -480,5 +456,11 @@ def KnownMixed (nodes : List Node) : Bool :=
 def KnownSeveral (nodes : List Node) : Bool :=
   nodes.any fun n => sortedOps.any fun k =>
     ((splitLines n.src).filter fun ln => (specViol .code ln).any (·.1 == k)).length > 1
+
+/-- `ops-span-heuristic`: `Source.find(str(expr))` has no exact (lower-case) match but its blank-separated pieces all
+occur somewhere: the span `(find(first piece), find(last piece) + len)` is then an arbitrary stretch of the statement -/
+def KnownSpan (nodes : List Node) : Bool :=
+  nodes.any fun n => n.exprs.any fun e =>
+    (find (lower e.str) (lower n.src)).isNone && (sourceFind n.src e.str).isSome
 
 end LokiModel.C43
